@@ -59,6 +59,10 @@ struct Case {
     max_files: Option<u8>,
     start: i64,
     steps: Vec<Step>,
+    /// before step `.0` the appender is dropped and a new one is built on the same directory
+    /// (a restart), with this file limit if given
+    #[serde(default)]
+    restart: Option<(u8, Option<u8>)>,
 }
 
 fn civil(secs: i64) -> (i64, u32, u32, u32, u32) {
@@ -147,23 +151,26 @@ fn run_case(case: &Case) -> Outcome {
 fn run_in(case: &Case, dir: &PathBuf) -> Outcome {
     let mut t = case.start;
     verif_clock::set(t);
-    let mut b = RollingFileAppender::builder().rotation(match case.rot {
-        Rot::Minutely => Rotation::MINUTELY,
-        Rot::Hourly => Rotation::HOURLY,
-        Rot::Daily => Rotation::DAILY,
-        Rot::Never => Rotation::NEVER,
-    });
-    if let Some(p) = &case.prefix {
-        b = b.filename_prefix(p.clone());
-    }
-    if let Some(s) = &case.suffix {
-        b = b.filename_suffix(s.clone());
-    }
-    let limit = case.max_files.map(|k| (k as usize).clamp(1, 4));
-    if let Some(k) = limit {
-        b = b.max_log_files(k);
-    }
-    let mut app = match b.build(dir) {
+    let build = |limit: Option<usize>| {
+        let mut b = RollingFileAppender::builder().rotation(match case.rot {
+            Rot::Minutely => Rotation::MINUTELY,
+            Rot::Hourly => Rotation::HOURLY,
+            Rot::Daily => Rotation::DAILY,
+            Rot::Never => Rotation::NEVER,
+        });
+        if let Some(p) = &case.prefix {
+            b = b.filename_prefix(p.clone());
+        }
+        if let Some(s) = &case.suffix {
+            b = b.filename_suffix(s.clone());
+        }
+        if let Some(k) = limit {
+            b = b.max_log_files(k);
+        }
+        b.build(dir)
+    };
+    let mut limit = case.max_files.map(|k| (k as usize).clamp(1, 4));
+    let mut app = match build(limit) {
         Ok(a) => a,
         Err(e) => return Outcome::fail("appender could not be built", format!("{e}; case = {}", serde_json::to_string(case).unwrap_or_default())),
     };
@@ -174,6 +181,8 @@ fn run_in(case: &Case, dir: &PathBuf) -> Outcome {
     let mut next = next_boundary(case.rot, t);
     let (mut boundaries, mut exact_or_multi, mut pruned, mut backwards, mut concurrent_rotation) = (0u32, false, false, false, false);
     let mut raced_into_pruned = false;
+    let mut restarted = false;
+    let mut backlog = false;
     let fail = |sig: &str, d: String| Outcome::fail(sig, format!("{d}; case = {}", serde_json::to_string(case).unwrap_or_default()));
     let mut n = 0u32;
     for (si, st) in case.steps.iter().enumerate() {
@@ -195,6 +204,25 @@ fn run_in(case: &Case, dir: &PathBuf) -> Outcome {
         let new_t = new_t.clamp(days_from_civil(1971, 1, 1) * 86_400, days_from_civil(9998, 12, 31) * 86_400);
         t = new_t;
         verif_clock::set(t);
+        if let Some((at, new_limit)) = case.restart {
+            if at as usize % case.steps.len() == si && si > 0 {
+                // restart: the new appender opens (or creates) the file of the current period and
+                // does not prune; the backlog is dealt with by its next rotation
+                drop(app);
+                if let Some(k) = new_limit {
+                    limit = Some((k as usize).clamp(1, 4));
+                }
+                app = match build(limit) {
+                    Ok(a) => a,
+                    Err(e) => return fail("appender could not be rebuilt", format!("step {si}: {e}")),
+                };
+                current = file_name(case, t);
+                files.entry(current.clone()).or_default();
+                next = next_boundary(case.rot, t);
+                restarted = true;
+                backlog = true;
+            }
+        }
         let before_births = births(dir);
         let before_files: Vec<String> = read_dir(dir).keys().cloned().collect();
         // model transition
@@ -252,17 +280,20 @@ fn run_in(case: &Case, dir: &PathBuf) -> Outcome {
                 let existing: Vec<&String> = before_files.iter().filter(|f| case.prefix.as_ref().map(|p| f.starts_with(p.as_str())).unwrap_or(true) && case.suffix.as_ref().map(|s| f.ends_with(s.as_str())).unwrap_or(true)).collect();
                 if existing.len() >= k {
                     pruned = true;
-                    let removed: Vec<&String> = before_files.iter().filter(|f| !real.contains_key(*f)).collect();
+                    // a file of the new period's name can already exist (the clock went back and a
+                    // restarted appender wrote there): if it was pruned and created again its
+                    // birth time changed
+                    let after_births = births(dir);
+                    let recreated = |f: &String| f == &current && before_births.get(f).is_some() && before_births.get(f) != after_births.get(f);
+                    let removed: Vec<&String> = before_files.iter().filter(|f| !real.contains_key(*f) || recreated(f)).collect();
                     let want_removed = existing.len() - (k - 1);
-                    // the file the appender is about to create may have the same name as an
-                    // existing one only if the clock went back and forth; names are per period
-                    if removed.len() != want_removed.min(existing.len()) && !(real.contains_key(&current) && before_files.contains(&current)) {
+                    if removed.len() != want_removed.min(existing.len()) {
                         return fail("pruning removed the wrong number of files", format!("step {si}: {} files matched, limit {k}: removed {:?}", existing.len(), removed));
                     }
                     // oldest first (ties in the birth time are tolerated)
                     if let (Some(newest_removed), Some(oldest_kept)) = (
                         removed.iter().filter_map(|f| before_births.get(*f)).max(),
-                        existing.iter().filter(|f| real.contains_key(**f) && **f != &current).filter_map(|f| before_births.get(*f)).min(),
+                        existing.iter().filter(|f| real.contains_key(**f) && !recreated(f)).filter_map(|f| before_births.get(*f)).min(),
                     ) {
                         if newest_removed > oldest_kept {
                             return fail("pruning removed a newer file and kept an older one", format!("step {si}: removed {:?}", removed));
@@ -322,7 +353,12 @@ fn run_in(case: &Case, dir: &PathBuf) -> Outcome {
             };
             return fail(sig, format!("step {si} (t={t}, {:?}): files {:?}, expected {:?}", civil(t), rk, mk));
         }
-        if let Some(k) = limit {
+        // the limit is promised for what a rotation leaves behind; a restart over a backlog (or
+        // with a smaller limit) may exceed it until the new appender's first rotation
+        if rotates {
+            backlog = false;
+        }
+        if let (Some(k), false) = (limit, backlog) {
             if real.len() > k {
                 return fail("more log files than the configured limit", format!("step {si}: {} files, limit {k}", real.len()));
             }
@@ -352,7 +388,7 @@ fn run_in(case: &Case, dir: &PathBuf) -> Outcome {
         }
     }
     let mut classes = vec![format!("{:?}", case.rot)];
-    for (b, nme) in [(exact_or_multi, "exact_boundary_or_multi_period_jump"), (pruned, "pruning_triggered"), (backwards, "clock_stepped_back"), (concurrent_rotation, "threads_wrote_across_a_rotation"), (raced_into_pruned, "racing_write_into_pruned_file")] {
+    for (b, nme) in [(exact_or_multi, "exact_boundary_or_multi_period_jump"), (pruned, "pruning_triggered"), (backwards, "clock_stepped_back"), (concurrent_rotation, "threads_wrote_across_a_rotation"), (raced_into_pruned, "racing_write_into_pruned_file"), (restarted, "restart_over_existing_files")] {
         if b {
             classes.push(nme.into());
         }
@@ -374,7 +410,7 @@ impl Property for C16 {
         Isolation::Thread
     }
     fn cases(&self, tier: Tier) -> u32 {
-        tier.pick(4_000, 120_000)
+        tier.pick(30_000, 600_000)
     }
     fn strategy(&self, tier: Tier) -> BoxedStrategy<Case> {
         let lo = days_from_civil(1971, 1, 1);
@@ -400,13 +436,13 @@ impl Property for C16 {
         let rot = prop_oneof![3 => Just(Rot::Minutely), 3 => Just(Rot::Hourly), 3 => Just(Rot::Daily), 1 => Just(Rot::Never)];
         let name = || proptest::option::weighted(0.6, "[a-z]{1,5}(\\.[a-z]{1,3})?");
         let max = tier.pick(14usize, 30usize);
-        (rot, name(), name(), proptest::option::weighted(0.4, 1u8..=4), start, proptest::collection::vec(step, 1..max)).prop_map(|(rot, prefix, suffix, max_files, start, steps)| Case { rot, prefix, suffix, max_files, start, steps }).boxed()
+        (rot, name(), name(), proptest::option::weighted(0.4, 1u8..=4), start, proptest::collection::vec(step, 1..max), proptest::option::weighted(0.3, (0u8..32, proptest::option::weighted(0.5, 1u8..=4)))).prop_map(|(rot, prefix, suffix, max_files, start, steps, restart)| Case { rot, prefix, suffix, max_files, start, steps, restart }).boxed()
     }
     fn run(&self, case: &Case) -> Outcome {
         run_case(case)
     }
     fn rule(&self) -> String {
-        "case = rotation {minutely,hourly,daily,never} x optional prefix x optional suffix x optional file limit 1-4 x start instant in 1971..9998 (biased to the last minute of month/year ends, Feb 28/29, Y2K) x <=14 (thorough <=30) steps, each a clock step {same instant, +0..120 s, +0..100000 s, exactly to the next boundary -1/0/+1 s, 1-5 periods ahead, 1..7200 s backwards} and a write of a unique payload through Write, or through MakeWriter from 2-6 threads released by a barrier. non-trivial: >= 2 boundaries crossed including an exact-boundary or multi-period step, or pruning was triggered; distinct by case".into()
+        "case = rotation {minutely,hourly,daily,never} x optional prefix x optional suffix x optional file limit 1-4 x start instant in 1971..9998 (biased to the last minute of month/year ends, Feb 28/29, Y2K) x <=14 (thorough <=30) steps, each a clock step {same instant, +0..120 s, +0..100000 s, exactly to the next boundary -1/0/+1 s, 1-5 periods ahead, 1..7200 s backwards} and a write of a unique payload through Write, or through MakeWriter from 2-6 threads released by a barrier; in 30 % of the cases the appender is dropped before a generated step and a new one is built on the same directory (restart over existing files), possibly with a different file limit. non-trivial: >= 2 boundaries crossed including an exact-boundary or multi-period step, or pruning was triggered; distinct by case".into()
     }
     fn assumptions(&self) -> Vec<String> {
         vec![
